@@ -305,6 +305,13 @@ func (r *Run) ConstIndexGuarded(scope func(fn *ssa.Function) bool) int {
 			xd := r.D.D(ia.X)
 			n++
 			key := fmt.Sprintf("const-index:%s:%s[%d]", short(FuncName(fn)), xd, idx)
+			// results that have a minimal length whatever the input: strings.Split / SplitAfter (and the N forms with
+			// n ≠ 0) at a non-empty constant separator yield at least one element
+			if min := libMinLen(call); idx < min {
+				r.Funcs[FuncName(fn)] = true
+				r.Pass(key, r.Where(in), fmt.Sprintf("%s[%d]: %s yields at least %d element(s) for every input", xd, idx, CalleeOf(call), min))
+				return
+			}
 			cases, err := r.D.ConstTable(fn, "len("+xd+")", nil)
 			if err != nil {
 				r.Fail(key, r.Where(in), fmt.Sprintf("%s[%d]: the length of the call result is never tested (index out of range for short results)", xd, idx))
@@ -353,6 +360,29 @@ func (r *Run) ConstIndexGuarded(scope func(fn *ssa.Function) bool) int {
 		})
 	}
 	return n
+}
+
+// libMinLen: the minimal length of the slice a library call returns, for every input (0 = unknown).
+func libMinLen(call *ssa.Call) int64 {
+	f := call.Call.StaticCallee()
+	if f == nil || len(call.Call.Args) < 2 {
+		return 0
+	}
+	sep, ok := call.Call.Args[1].(*ssa.Const)
+	if !ok || sep.Value == nil || sep.Value.ExactString() == `""` || !strings.HasPrefix(sep.Value.ExactString(), `"`) {
+		return 0
+	}
+	switch FuncName(f) {
+	case "strings.Split", "strings.SplitAfter":
+		return 1
+	case "strings.SplitN", "strings.SplitAfterN":
+		if len(call.Call.Args) == 3 {
+			if n, ok := call.Call.Args[2].(*ssa.Const); ok && n.Value != nil && n.Int64() != 0 {
+				return 1
+			}
+		}
+	}
+	return 0
 }
 
 // NilArgs: a nil pointer constant passed to a module function (or to any
